@@ -67,13 +67,19 @@ MeetOk(A, B) == ElimOk(TLCEval(Transpose(A \o B)))
 (***************************************************************************)
 (* The machine                                                             *)
 (***************************************************************************)
-Init == /\ As = [i \in 1..NA |-> Coord(ASets[i])]
-        /\ Bs = [j \in 1..NB |-> Coord(BSets[j])]
-        /\ W = [i \in 1..NA |-> [j \in 1..NB |-> Coord(ASets[i] \cap BSets[j])]]
-        /\ len = 0 /\ last = [a |-> "init"]
-
 ShearVec(v, i, j, s) == [c \in 1..M |-> IF c = j THEN v[c] + s * v[i] ELSE v[c]]
 ShearMat(A, i, j, s) == TLCEval([r \in 1..Len(A) |-> ShearVec(A[r], i, j, s)])
+\* the initial frame: a fixed product of unimodular shears applied to the coordinate subspaces
+Frame0 == [n \in 1..(2 * M) |-> IF n <= M THEN <<n, (n % M) + 1, 1>>
+                                ELSE <<((n - M) % M) + 1, n - M, IF n % 2 = 0 THEN 0 - 1 ELSE 2>>]
+RECURSIVE Scramble(_, _)
+Scramble(A, n) == IF n > Len(Frame0) THEN A
+                  ELSE Scramble(ShearMat(A, Frame0[n][1], Frame0[n][2], Frame0[n][3]), n + 1)
+
+Init == /\ As = [i \in 1..NA |-> Scramble(Coord(ASets[i]), 1)]
+        /\ Bs = [j \in 1..NB |-> Scramble(Coord(BSets[j]), 1)]
+        /\ W = [i \in 1..NA |-> [j \in 1..NB |-> Scramble(Coord(ASets[i] \cap BSets[j]), 1)]]
+        /\ len = 0 /\ last = [a |-> "init"]
 RowOp(A, r1, r2, s) == TLCEval([r \in 1..Len(A) |-> IF r = r1 THEN VAdd(A[r], VScale(s, A[r2])) ELSE A[r]])
 RowScale(A, r1, s) == TLCEval([r \in 1..Len(A) |-> IF r = r1 THEN VScale(s, A[r]) ELSE A[r]])
 
@@ -101,20 +107,21 @@ Next == \/ \E o \in AmbientOps : Ambient(o)
 (* What TLC checks                                                         *)
 (***************************************************************************)
 Pairs == (1..NA) \X (1..NB)
-Cap(i, j) == Meet(As[i], Bs[j])
+\* the table of eliminated intersections, computed once per state
+Table == TLCEval([i \in 1..NA |-> TLCEval([j \in 1..NB |-> Meet(As[i], Bs[j])])])
 ElimExact == \A ij \in Pairs : MeetOk(As[ij[1]], Bs[ij[2]])
 SpanningSets == /\ \A i \in 1..NA : RankOf(As[i]) = P
                 /\ \A j \in 1..NB : RankOf(Bs[j]) = Q
 Transverse == \A ij \in Pairs : RankOf(As[ij[1]] \o Bs[ij[2]]) = M
-DimFormula == \A ij \in Pairs : Len(Cap(ij[1], ij[2])) = KDim /\ RankOf(Cap(ij[1], ij[2])) = KDim
-InBoth == \A ij \in Pairs : \A n \in 1..KDim :
-            LET w == Cap(ij[1], ij[2])[n]
-            IN RankOf(Append(As[ij[1]], w)) = P /\ RankOf(Append(Bs[ij[2]], w)) = Q
-TrackedAgrees == \A ij \in Pairs : /\ RankOf(W[ij[1]][ij[2]]) = KDim
-                                   /\ RankOf(W[ij[1]][ij[2]] \o Cap(ij[1], ij[2])) = KDim
-
-Obs == [m |-> M, p |-> P, q |-> Q, k |-> KDim, len |-> len, As |-> As, Bs |-> Bs,
-        meet |-> [i \in 1..NA |-> [j \in 1..NB |-> Cap(i, j)]]]
-EmitObs == PrintT("OBS " \o ToJson(Obs))
+DimFormula(T) == \A ij \in Pairs : Len(T[ij[1]][ij[2]]) = KDim /\ RankOf(T[ij[1]][ij[2]]) = KDim
+InBoth(T) == \A ij \in Pairs : \A n \in 1..KDim :
+               LET w == T[ij[1]][ij[2]][n]
+               IN RankOf(Append(As[ij[1]], w)) = P /\ RankOf(Append(Bs[ij[2]], w)) = Q
+TrackedAgrees(T) == \A ij \in Pairs : /\ RankOf(W[ij[1]][ij[2]]) = KDim
+                                      /\ RankOf(W[ij[1]][ij[2]] \o T[ij[1]][ij[2]]) = KDim
+Obs(T) == [m |-> M, p |-> P, q |-> Q, k |-> KDim, len |-> len, As |-> As, Bs |-> Bs, meet |-> T]
+\* the three laws of the intersection table; the record is printed only when they hold
+MeetLaws == LET T == Table
+            IN DimFormula(T) /\ InBoth(T) /\ TrackedAgrees(T) /\ PrintT("OBS " \o ToJson(Obs(T)))
 View == <<As, Bs, W, len>>
 =============================================================================
